@@ -26,8 +26,8 @@ TEXT = {
  "C19": ("reference-model monitor for pair validity over needle shapes x rankers and all 65536 index pairs", "5 C19"),
 }
 NOTE = {
- "C05": "guard pages see every read that leaves the slice across a page boundary; reads that stay inside the page are seen only by Miri/ASan on the sampled cases; NEON is interpreted by Miri, not run on hardware; wasm simd128 not run",
- "C09": "configurations not reachable in this sandbox (x86_64 without SSE2, aarch64_be, wasm32 simd128) are listed as not_run",
+ "C05": "guard pages see every read that leaves the slice across a page boundary; reads that stay inside the page are seen only by Miri/ASan on the sampled cases; NEON is interpreted by Miri, not run on hardware; on wasm only reads past the end of linear memory trap",
+ "C09": "configurations not reachable in this sandbox (x86_64 without SSE2, aarch64_be, aarch64 without NEON) are listed as not_run; wasm32 simd128 is compared when node is present",
  "C13": "the counter counts hooked loop iterations/comparisons, not machine instructions; bound constants derived in DESIGN.md",
  "C15": "native races are only as adversarial as the scheduler + failpoint delays make them (evidence reports how many slots saw >=2 concurrent installers); Miri explores seeds 0..N with preemption",
 }
@@ -44,7 +44,7 @@ for pid in sorted(plans.PLANS):
         "level_claimed": {"category": "exploration",
                           "text": "held on the executions described in the evidence file (never 'verified'): " + t,
                           "design_ref": "DESIGN.md section " + ref},
-        "level_note": NOTE.get(pid, "oracle is a plain loop written without memchr code; inputs are those the generators produce; NEON only under Miri; wasm simd128 not run"),
+        "level_note": NOTE.get(pid, "oracle is a plain loop written without memchr code; inputs are those the generators produce; NEON only under Miri (interpreted intrinsics); wasm simd128 only when node is present (optional engine)"),
         "technique": "runtime monitoring: " + t.split(":")[0].split(" on ")[0].split(" over ")[0],
     })
 m = {
@@ -59,7 +59,7 @@ m = {
  },
  "engines": [
    {"name": "vh", "path": "/verif/harness", "serves_properties": sorted(plans.PLANS),
-    "kind_free_text": "Rust worker (case language + oracles + guard-page arena + SIGSEGV reporter + counting allocator + thread drivers) run natively in several build configurations, under Miri (x86_64, aarch64, s390x, i686), AddressSanitizer and ThreadSanitizer; orchestrated by ./check (python3 stdlib)"},
+    "kind_free_text": "Rust worker (case language + oracles + guard-page arena + SIGSEGV reporter + counting allocator + thread drivers) run natively in several build configurations, under Miri (x86_64, aarch64, s390x, i686), AddressSanitizer and ThreadSanitizer, and - optional engine - compiled no_std for wasm32+simd128 and run under node/V8 (harness/src/lib.rs, harness/run_wasm.js); orchestrated by ./check (python3 stdlib)"},
  ],
  "checks": checks,
  "not_applicable": [],
